@@ -150,7 +150,13 @@ class Recorder:
         obj = self.obj
         X = self.X if X is None else X
         y = self.y if y is None else y
-        obj.n_to_select = nts
+        # numbers are handed over as numpy scalars now and then (np.int64 / np.float64 are what array code produces)
+        self.nfit = getattr(self, "nfit", 0) + 1
+        if nts is not None and (self.nfit + int(X.shape[0])) % 3 == 0:
+            nts_arg = np.int64(nts) if isinstance(nts, (int, np.integer)) else np.float64(nts)
+        else:
+            nts_arg = nts
+        obj.n_to_select = nts_arg
         obj.score_threshold = None if thr is None else thr[0] / thr[1]
         obj.score_threshold_type = thr_type
         self.calls = []
